@@ -263,3 +263,60 @@ func VerifHarness_C06_RegexpAndError() {
 	vsymAssert(e == "first", "SetError keeps the first error")
 	vsymReach("C06_regexp")
 }
+
+// C06-O3b: a stage instance processes a stream of lines: what an earlier
+// (malformed or well-formed) line did must not change what a later
+// well-formed line exposes.
+func verifC06Sequence(valLen int) {
+	firsts := []string{
+		`{"k1":"a","o":{"in":"b"}}`,
+		`{"k1":"a","o":{"in":"b`,
+		`{"k1":"a","o":{"in": }`,
+		`{"k1":`,
+		`plain text`,
+		`{"o":{"p":{"q":[1,{"r":`,
+	}
+	first := firsts[vsymChoice("first", len(firsts))]
+	v := verifLower("v", valLen)
+	second := `{"k1":"` + v + `","o":{"in":"x"},"k.3":7}`
+	mode := vsymChoice("mode", 4)
+	var proc Processor
+	var err error
+	switch mode {
+	case 0:
+		proc, err = buildJSONExtractor(&logql.JSONExpressionParser{})
+	case 1:
+		proc, err = buildJSONExtractor(&logql.JSONExpressionParser{Labels: []logql.Label{"k1"}})
+	case 2:
+		proc, err = buildJSONExtractor(&logql.JSONExpressionParser{
+			Exprs: []logql.LabelExtractionExpr{{Label: "x", Expr: "k1"}, {Label: "z", Expr: "o.in"}}})
+	default:
+		proc, err = buildUnpackExtractor(&logql.UnpackLabelParser{})
+		second = `{"k1":"` + v + `","_entry":"e"}`
+	}
+	vsymAssert(err == nil, "stage builds")
+	s1 := newLabelSet()
+	out1, keep1 := proc.Process(1, first, s1)
+	vsymAssert(keep1 && (mode == 3 || out1 == first), "the first line is kept")
+	s2 := newLabelSet()
+	out2, keep2 := proc.Process(2, second, s2)
+	vsymAssert(keep2, "the second line is kept")
+	vsymAssert(verifNoErr(s2), "a well-formed line raises no error, whatever came before")
+	switch mode {
+	case 0, 1:
+		g, ok := verifGet(s2, "k1")
+		vsymAssert(ok && g == v && out2 == second, "a well-formed line exposes its fields, whatever came before")
+	case 2:
+		g, ok := verifGet(s2, "x")
+		vsymAssert(ok && g == v, "path expression k1 on the later line")
+		g, ok = verifGet(s2, "z")
+		vsymAssert(ok && g == "x" && out2 == second, "nested path expression on the later line")
+	default:
+		g, ok := verifGet(s2, "k1")
+		vsymAssert(ok && g == v && out2 == "e", "unpack on the later line")
+	}
+	vsymReach("C06_sequence")
+}
+
+func VerifHarness_C06_Sequence_1() { verifC06Sequence(1) }
+func VerifHarness_C06_Sequence_2() { verifC06Sequence(2) }
